@@ -986,20 +986,40 @@ class DataFrameSchema(Generic[TDataObject], BaseSchema):
         )
 
         for col in keys_temp:
+            col_schema = new_schema.columns[col]
             ind_list.append(
                 Index(
-                    dtype=new_schema.columns[col].dtype,
+                    dtype=col_schema.dtype,
                     name=col,
-                    checks=new_schema.columns[col].checks,
-                    nullable=new_schema.columns[col].nullable,
-                    unique=new_schema.columns[col].unique,
-                    coerce=new_schema.columns[col].coerce,
+                    checks=col_schema.checks,
+                    parsers=col_schema.parsers,
+                    nullable=col_schema.nullable,
+                    unique=col_schema.unique,
+                    report_duplicates=col_schema.report_duplicates,
+                    coerce=col_schema.coerce,
+                    title=col_schema.title,
+                    description=col_schema.description,
+                    default=col_schema.default,
+                    metadata=col_schema.metadata,
+                    drop_invalid_rows=col_schema.drop_invalid_rows,
                 )
             )
 
-        new_schema.index = (
-            ind_list[0] if len(ind_list) == 1 else MultiIndex(ind_list)
-        )
+        if len(ind_list) == 1:
+            new_schema.index = ind_list[0]
+        elif append and isinstance(new_schema.index, MultiIndex):
+            # keep the options of the multiindex that is appended to
+            new_schema.index = MultiIndex(
+                ind_list,
+                # pylint: disable=protected-access
+                coerce=new_schema.index._coerce,
+                strict=new_schema.index.strict,
+                name=new_schema.index.name,
+                ordered=new_schema.index.ordered,
+                unique=new_schema.index.unique,
+            )
+        else:
+            new_schema.index = MultiIndex(ind_list)
 
         # if drop is True as defaulted, drop the columns moved into the index
         if drop:
@@ -1126,60 +1146,56 @@ class DataFrameSchema(Generic[TDataObject], BaseSchema):
                 f"Keys {level_not_in_index} not found in schema columns!"
             )
 
-        new_index = (
-            None
-            if not level_temp or isinstance(new_schema.index, Index)
-            else new_schema.index.remove_columns(level_temp)
-        )
-        new_index = (
-            new_index
-            if new_index is None
-            else (
-                Index(
-                    dtype=new_index.columns[list(new_index.columns)[0]].dtype,
-                    checks=new_index.columns[
-                        list(new_index.columns)[0]
-                    ].checks,
-                    nullable=new_index.columns[
-                        list(new_index.columns)[0]
-                    ].nullable,
-                    unique=new_index.columns[
-                        list(new_index.columns)[0]
-                    ].unique,
-                    coerce=new_index.columns[
-                        list(new_index.columns)[0]
-                    ].coerce,
-                    name=new_index.columns[list(new_index.columns)[0]].name,
-                )
-                if (len(list(new_index.columns)) == 1)
-                and (new_index is not None)
-                else (
-                    None
-                    if (len(list(new_index.columns)) == 0)
-                    and (new_index is not None)
-                    else new_index
-                )
+        # the index components that stay in the index and the ones that are
+        # moved out of it, with all of their properties
+        if isinstance(new_schema.index, MultiIndex):
+            moved_indexes = [
+                ix for ix in new_schema.index.indexes if ix.name in level_temp
+            ]
+            kept_indexes = [
+                ix
+                for ix in new_schema.index.indexes
+                if ix.name not in level_temp
+            ]
+        else:
+            moved_indexes = [new_schema.index] if level_temp else []
+            kept_indexes = [] if level_temp else [new_schema.index]
+
+        new_index: Any
+        if not kept_indexes:
+            new_index = None
+        elif len(kept_indexes) == 1:
+            new_index = kept_indexes[0]
+        else:
+            new_index = MultiIndex(
+                kept_indexes,
+                # pylint: disable=protected-access
+                coerce=new_schema.index._coerce,
+                strict=new_schema.index.strict,
+                name=new_schema.index.name,
+                ordered=new_schema.index.ordered,
+                unique=new_schema.index.unique,
             )
-        )
 
         if not drop:
-            additional_columns: Dict[str, Any] = (
-                {col: new_schema.index.columns.get(col) for col in level_temp}
-                if isinstance(new_schema.index, MultiIndex)
-                else {new_schema.index.name: new_schema.index}
-            )
             new_schema = new_schema.add_columns(
                 {
-                    k: Column(
-                        dtype=v.dtype,
-                        parsers=v.parsers,
-                        checks=v.checks,
-                        nullable=v.nullable,
-                        unique=v.unique,
-                        coerce=v.coerce,
-                        name=v.name,
+                    ix.name: Column(
+                        dtype=ix.dtype,
+                        parsers=ix.parsers,
+                        checks=ix.checks,
+                        nullable=ix.nullable,
+                        unique=ix.unique,
+                        report_duplicates=ix.report_duplicates,
+                        coerce=ix.coerce,
+                        name=ix.name,
+                        title=ix.title,
+                        description=ix.description,
+                        default=ix.default,
+                        metadata=ix.metadata,
+                        drop_invalid_rows=ix.drop_invalid_rows,
                     )
-                    for (k, v) in additional_columns.items()
+                    for ix in moved_indexes
                 }
             )
 
